@@ -23,6 +23,11 @@ import SwcVerif.Props.C10Gen
 #print axioms RefineLm.fragmentation_refines
 #print axioms RefineLm.node_subtree_eq
 #print axioms RefineLm.terminalDegree_reduces
+#print axioms RefineLm.subtree_bound
+#print axioms RefineLm.kids_closed
+#print axioms RefineLm.terminalDegree_refines
+#print axioms C10.generated_terminal_degree
+#print axioms C10.generated_terminal_degree_wf
 #print axioms C10.generated_branch_order
 #print axioms C10.generated_branch_order_eq_model
 #print axioms C10.generated_n_stems
